@@ -66,6 +66,25 @@ def default_value(prog, tix, name="r", depth=0):
     return Tok("O", name)
 
 
+def builds_parser(prog, key):
+    """a crate function that returns a winnow combinator value (`fn f() -> impl Parser<…>`): a parser constructor, to
+    be interpreted during extraction rather than stubbed"""
+    b = prog.bodies[key]
+    t = prog.types[b["locals"][0]]
+
+    def winnow_value(t, depth=0):
+        k = t.get("k")
+        if k in ("closure", "fndef") and str(t.get("def", "")).startswith("winnow::"):
+            return True
+        if k == "adt" and (str(t.get("adt", "")).startswith("winnow::combinator::") or str(t.get("adt", "")).startswith("winnow::token::")
+                           or str(t.get("adt", "")).startswith("winnow::parser::")):
+            return True
+        if k == "tuple" and depth < 3:
+            return any(winnow_value(prog.types[x], depth + 1) for x in t["tys"])
+        return False
+    return winnow_value(t)
+
+
 def extract(prog):
     """dict: parser function key -> P tree. Imperative parsers (several parse_next calls sequenced by
     `?`) become P('paths', [P('seq', steps)…]) with opt outcomes recorded per path."""
@@ -86,7 +105,7 @@ def extract(prog):
                         ov[k2] = stub
                 for k3, b3 in prog.bodies.items():
                     # everything that is not grammar is irrelevant for the extraction: stub it by type
-                    if k3 not in ov and k3 != key and b3["def_kind"] in ("Fn", "AssocFn"):
+                    if k3 not in ov and k3 != key and b3["def_kind"] in ("Fn", "AssocFn") and not builds_parser(prog, k3):
                         def stub3(interp, args, info, k3=k3):
                             return default_value(prog, prog.body(k3)["locals"][0], "val:%s" % k3)
                         ov[k3] = stub3
@@ -115,6 +134,49 @@ def extract(prog):
                 seqs.append(P("seq", items))
             grammar[key] = P("paths", seqs)
     return grammar, problems
+
+
+class LeafPolicy(Policy):
+    """run a parser *function* with the result of its innermost parser supplied: the text-level combinators answer
+    `leaf`; `map`/`try_map` wrappers apply their function to it; everything after the parse (the imperative rest of the
+    function) is interpreted. This makes `Parser::map(p, f).parse_next(i)` and `let x = p.parse_next(i)?; g(x)` alike."""
+
+    def __init__(self, leaf):
+        Policy.__init__(self)
+        self.leaf = leaf
+        self.leaf_parsers = []
+
+    def apply(self, interp, p):
+        if p.kind in ("context", "cut_err"):
+            return self.apply(interp, p.args[0])
+        if p.kind == "map":
+            return interp.call_value(p.extra, [self.apply(interp, p.args[0])])
+        if p.kind == "try_map":
+            r = interp.call_value(p.extra, [self.apply(interp, p.args[0])])
+            if isinstance(r, Adt) and r.name == "std::result::Result" and r.variant == 0:
+                return r.fields[0]
+            raise Inconclusive("try_map function failed on the supplied leaf: %r" % (r,), interp.where())
+        if p.kind == "void":
+            self.apply(interp, p.args[0])
+            return ()
+        self.leaf_parsers.append(p)
+        return self.leaf
+
+    def parse_next(self, interp, p, inp, info):
+        return ok(self.apply(interp, p))
+
+
+def run_with_leaf(prog, fn_key, leaf, ctx=None, overrides=None):
+    """interpret parser function `fn_key` with LeafPolicy; returns (value inside Ok, interp)"""
+    pol = LeafPolicy(leaf)
+    it = Interp(prog, pol, ctx=ctx, overrides=overrides or {})
+    inp = Ptr(Cell(Ptr(Cell(Tok("T", "input", "", dom="input")))))
+    r = it.call_body(fn_key, [inp])
+    if not (isinstance(r, Adt) and r.name == "std::result::Result" and r.variant == 0):
+        raise Inconclusive("%s did not return Ok for a successful parse: %r" % (fn_key, r))
+    if len(pol.leaf_parsers) != 1:
+        raise Inconclusive("%s runs %d parsers, expected one" % (fn_key, len(pol.leaf_parsers)))
+    return r.fields[0], it
 
 
 # --------------------------------------------------------------------------- structural analyses
